@@ -42,80 +42,139 @@ def _pattern_groups(repo, expr, fn_src_class):
     return groups_per_grammar
 
 
+def _decoder_functions(repo):
+    """(owner class or None, name, fn) for every function of decoder.py."""
+    mod = repo.module("decoder")
+    out = []
+    for name, fn in mod.functions.items():
+        out.append((None, name, fn))
+    for cname, cnode in mod.classes.items():
+        for n in cnode.body:
+            if isinstance(n, ast.FunctionDef):
+                out.append((cname, n.name, n))
+    return out
+
+
+def _match_patterns(repo, fn):
+    """match variables of *fn* -> pattern expression (receiver of .fullmatch or first argument of re.fullmatch)."""
+    matches = {}
+    for x in ast.walk(fn):
+        if isinstance(x, ast.Assign) and isinstance(x.targets[0], ast.Name) and isinstance(x.value, ast.Call) \
+                and isinstance(x.value.func, ast.Attribute) and x.value.func.attr in ("fullmatch", "match", "search"):
+            recv = x.value.func.value
+            matches[x.targets[0].id] = x.value.args[0] if norm(recv) == "re" else recv
+    return matches
+
+
+def _resolve_groups(repo, fn, pexpr, owner):
+    per = _pattern_groups(repo, pexpr, owner)
+    if per is None and isinstance(pexpr, ast.Name):
+        for lp in ast.walk(fn):
+            if isinstance(lp, ast.For) and isinstance(lp.target, ast.Name) and lp.target.id == pexpr.id \
+                    and isinstance(lp.iter, (ast.Tuple, ast.List)):
+                pers = [_pattern_groups(repo, e, owner) for e in lp.iter.elts]
+                if all(p is not None for p in pers):
+                    per = {}
+                    for p in pers:
+                        for g, names in p.items():
+                            per[g] = per.get(g, names) & names
+    return per
+
+
+def groupdict_sites(repo):
+    """(owner, function name, fn, groupdict variable, {grammar: group names} or None) for each groupdict() result,
+    following match objects passed to helper functions of the same module."""
+    funcs = _decoder_functions(repo)
+    sites = []
+    # helpers: functions that call .groupdict() on a parameter
+    helper_params = {}
+    for owner, name, fn in funcs:
+        params = [a.arg for a in fn.args.args]
+        for x in ast.walk(fn):
+            if isinstance(x, ast.Assign) and isinstance(x.targets[0], ast.Name) and isinstance(x.value, ast.Call) \
+                    and isinstance(x.value.func, ast.Attribute) and x.value.func.attr == "groupdict" \
+                    and isinstance(x.value.func.value, ast.Name):
+                mv = x.value.func.value.id
+                matches = _match_patterns(repo, fn)
+                if mv in matches:
+                    sites.append((owner, name, fn, x.targets[0].id, _resolve_groups(repo, fn, matches[mv], owner)))
+                elif mv in params:
+                    helper_params[name] = (owner, fn, x.targets[0].id, params.index(mv))
+    # callers of helpers
+    for hname, (howner, hfn, dname, pidx) in helper_params.items():
+        per_all = None
+        ncallers = 0
+        for owner, name, fn in funcs:
+            matches = _match_patterns(repo, fn)
+            for c in ast.walk(fn):
+                if isinstance(c, ast.Call) and ((isinstance(c.func, ast.Name) and c.func.id == hname) or
+                                                (isinstance(c.func, ast.Attribute) and c.func.attr == hname)):
+                    # positional index: methods drop self
+                    idx = pidx - (1 if (howner is not None and isinstance(c.func, ast.Attribute) and
+                                        "staticmethod" not in [norm(d) for d in hfn.decorator_list]) else 0)
+                    if isinstance(c.func, ast.Attribute) and howner is not None and "staticmethod" in [norm(d) for d in hfn.decorator_list]:
+                        idx = pidx
+                    if 0 <= idx < len(c.args) and isinstance(c.args[idx], ast.Name) and c.args[idx].id in matches:
+                        per = _resolve_groups(repo, fn, matches[c.args[idx].id], owner)
+                        ncallers += 1
+                        if per is None:
+                            per_all = None
+                            break
+                        if per_all is None:
+                            per_all = dict(per)
+                        else:
+                            for g in per:
+                                per_all[g] = per_all.get(g, per[g]) & per[g]
+        sites.append((howner, hname, hfn, dname, per_all if ncallers else None))
+    return sites
+
+
 def rule_gd1(repo, res):
     """GD1: every `d["name"]` on a groupdict() refers to a named group that exists in the pattern for every
     grammar class, or is dominated by a `"name" in d` test -- otherwise KeyError escapes the loaders."""
     n = 0
-    for dcls in repo.subclasses("PVLDecoder"):
-        for m, fn in repo.classes[dcls].methods.items():
-            # match variables:  X = <regex>.fullmatch(value)  /  re.fullmatch(<pattern>, value)
-            matches = {}
-            for x in ast.walk(fn):
-                if isinstance(x, ast.Assign) and isinstance(x.targets[0], ast.Name) and isinstance(x.value, ast.Call) \
-                        and isinstance(x.value.func, ast.Attribute) and x.value.func.attr in ("fullmatch", "match", "search"):
-                    recv = x.value.func.value
-                    if norm(recv) == "re":
-                        matches[x.targets[0].id] = x.value.args[0]
-                    else:
-                        matches[x.targets[0].id] = recv
-            gdicts = {}
-            for x in ast.walk(fn):
-                if isinstance(x, ast.Assign) and isinstance(x.targets[0], ast.Name) and isinstance(x.value, ast.Call) \
-                        and isinstance(x.value.func, ast.Attribute) and x.value.func.attr == "groupdict" \
-                        and isinstance(x.value.func.value, ast.Name) and x.value.func.value.id in matches:
-                    gdicts[x.targets[0].id] = matches[x.value.func.value.id]
-            for dname, pexpr in gdicts.items():
-                per = _pattern_groups(repo, pexpr, dcls)
-                if per is None:
-                    # loop variable over several regexes (PVLDecoder.decode_non_decimal): resolve through the for loop
-                    if isinstance(pexpr, ast.Name):
-                        for lp in ast.walk(fn):
-                            if isinstance(lp, ast.For) and isinstance(lp.target, ast.Name) and lp.target.id == pexpr.id \
-                                    and isinstance(lp.iter, (ast.Tuple, ast.List)):
-                                pers = [_pattern_groups(repo, e, dcls) for e in lp.iter.elts]
-                                if all(p is not None for p in pers):
-                                    per = {}
-                                    for p in pers:
-                                        for g, names in p.items():
-                                            per[g] = per.get(g, names) & names
-                    if per is None:
-                        res.notes.append(f"GD1: pattern of {dcls}.{m}:{dname} not resolvable; skipped")
-                        continue
-                guaranteed = set.intersection(*per.values()) if per else set()
-                for x in ast.walk(fn):
-                    if isinstance(x, ast.Subscript) and isinstance(x.value, ast.Name) and x.value.id == dname \
-                            and isinstance(x.slice, ast.Constant) and isinstance(x.slice.value, str) and isinstance(x.ctx, ast.Load):
-                        key = x.slice.value
-                        n += 1
-                        guarded = False
-                        a = x
-                        while a is not None and a is not fn:
-                            p = getattr(a, "_parent", None)
-                            if isinstance(p, ast.If) and a in p.body and norm(p.test) in (f"'{key}' in {dname}",):
-                                guarded = True
-                            if isinstance(p, ast.IfExp) and a is p.body and norm(p.test) in (f"'{key}' in {dname}",):
-                                guarded = True
-                            a = p
-                        ok = key in guaranteed or guarded
-                        res.oblige("GD1", f"{dcls}.{m}: {dname}['{key}'] names a group of the pattern for every grammar (or is guarded)", ok=ok)
-                        if not ok:
-                            lacking = sorted(g for g, names in per.items() if key not in names)
-                            res.add(Finding("GD1", f"{dcls}.{m}", f"{dname}['{key}']",
-                                            f"{dcls}.{m} reads {dname}['{key}'] without a `'{key}' in {dname}` test, but the "
-                                            f"pattern has no group '{key}' for {lacking}: with such a grammar KeyError escapes "
-                                            "the decoder's ValueError handlers and the loader", where=f"pvl/decoder.py:{x.lineno}"))
-    res.floor("groupdict subscripts in the decoders", n, 8)
+    for owner, m, fn, dname, per in groupdict_sites(repo):
+        q = f"{owner}.{m}" if owner else m
+        if per is None:
+            res.notes.append(f"GD1: pattern of {q}:{dname} not resolvable; skipped")
+            continue
+        guaranteed = set.intersection(*per.values()) if per else set()
+        for x in ast.walk(fn):
+            if isinstance(x, ast.Subscript) and isinstance(x.value, ast.Name) and x.value.id == dname \
+                    and isinstance(x.slice, ast.Constant) and isinstance(x.slice.value, str) and isinstance(x.ctx, ast.Load):
+                key = x.slice.value
+                n += 1
+                guarded = False
+                a = x
+                while a is not None and a is not fn:
+                    p = getattr(a, "_parent", None)
+                    if isinstance(p, ast.If) and a in p.body and norm(p.test) in (f"'{key}' in {dname}",):
+                        guarded = True
+                    if isinstance(p, ast.IfExp) and a is p.body and norm(p.test) in (f"'{key}' in {dname}",):
+                        guarded = True
+                    a = p
+                ok = key in guaranteed or guarded
+                res.oblige("GD1", f"{q}: {dname}['{key}'] names a group of the pattern for every grammar (or is guarded)", ok=ok)
+                if not ok:
+                    lacking = sorted(g for g, names in per.items() if key not in names)
+                    res.add(Finding("GD1", q, f"{dname}['{key}']",
+                                    f"{q} reads {dname}['{key}'] without a `'{key}' in {dname}` test, but the "
+                                    f"pattern has no group '{key}' for {lacking}: with such a grammar KeyError escapes "
+                                    "the decoder's ValueError handlers and the loader", where=f"pvl/decoder.py:{x.lineno}"))
+    res.floor("groupdict subscripts in the decoders", n, 6)
 
 
 def rule_n2(repo, res):
     """N2: the sign, radix and digits groups of a based integer all reach int(...) on every path: a name that
     carries the sign is only ever assigned from the groups (never a constant)."""
     n = 0
-    for dcls in repo.subclasses("PVLDecoder"):
-        fn = repo.classes[dcls].methods.get("decode_non_decimal")
-        if fn is None:
+    for owner, fname, fn in _decoder_functions(repo):
+        dcls = owner or "decoder"
+        rets = [r for r in ast.walk(fn) if isinstance(r, ast.Return) and isinstance(r.value, ast.Call) and norm(r.value.func) == "int"
+                and any(k.arg == "base" for k in r.value.keywords)
+                and any(isinstance(x, ast.Subscript) for x in ast.walk(r.value))]
+        if not rets:
             continue
-        rets = [r for r in ast.walk(fn) if isinstance(r, ast.Return) and isinstance(r.value, ast.Call) and norm(r.value.func) == "int"]
         for r in rets:
             n += 1
             call = r.value
@@ -163,10 +222,10 @@ def rule_n2(repo, res):
             if not ok_radix:
                 problems.append("base= does not come from the radix group")
             ok = ok_sign and ok_digits and ok_radix
-            res.oblige("N2", f"{dcls}.decode_non_decimal: int(<sign group> + <digits group>, base=int(<radix group>)) on every path", ok=ok)
+            res.oblige("N2", f"{dcls}.{fname}: int(<sign group> + <digits group>, base=int(<radix group>)) on every path", ok=ok)
             if not ok:
-                res.add(Finding("N2", f"{dcls}.decode_non_decimal", "sign/digits/radix flow",
-                                f"{dcls}.decode_non_decimal does not build the value from the sign, digits and radix groups on "
+                res.add(Finding("N2", f"{dcls}.{fname}", "sign/digits/radix flow",
+                                f"{dcls}.{fname} does not build the value from the sign, digits and radix groups on "
                                 f"every path ({'; '.join(problems)}): a written sign (or radix) is dropped for some grammar/"
                                 "decoder pairing and the integer has the wrong value", where=f"pvl/decoder.py:{r.lineno}"))
-    res.floor("decode_non_decimal int() returns", n, 3)
+    res.floor("based-integer int(..., base=...) returns in decoder.py", n, 1)
